@@ -43,8 +43,11 @@ META = {
         "names, blocked as int or set, costs maps, weights 1/0.5/1.5/2, plus barrier families (blocked wall / expensive band "
         "with one or two gaps between start and goal). Oracle: exact synchronous Bellman-Ford DP, min-plus "
         "matrix squaring, closure on the reachable sub-graph for negative-cycle reachability, BFS layers, label-correcting "
-        "search in Q(sqrt2) for grids. MAX_ITER is accepted only when max_iter <= number of nodes reachable from the start "
-        "(the search cannot perform more iterations than that). Non-trivial = the (nearest) target has >=2 simple paths of "
+        "search in Q(sqrt2) for grids. MAX_ITER is accepted only when the limit can really run out before the goal is taken "
+        "from the frontier: bfs: max_iter < #{nodes no deeper than the nearest goal}; dijkstra/astar: max_iter < #{nodes no "
+        "farther than the goal}; goal unreachable, dfs, grid, past max_cost: max_iter <= #nodes reachable from the start. "
+        "Families added later: bushy (bfs/dfs: hub with 4-8 successors, goals at depth 1 and 2, small max_iter) and a power-of-two "
+        "scale 2^-40..2^12 on all weights of bellman_ford/floyd_warshall cases (tiny negative cycles; same oracle, exact). Non-trivial = the (nearest) target has >=2 simple paths of "
         "different cost, or a negative edge lies on an optimal path, or a negative cycle exists that is not reachable from "
         "the source (floyd_warshall: some pair with two simple paths of different cost, or a negative cycle with n>=2); "
         "grid: two simple routes of different cost from start to goal. Call histories: about a third of the cases carry one "
@@ -253,9 +256,54 @@ def weighted_cases(draw, tier="quick"):
 
 
 @st.composite
+def _bushy_case(draw, tier="quick"):
+    """Wide fan-out under a small iteration limit: s -> [hub, a, ...], hub -> 4..8 successors; goals (usually a predicate)
+    sit at depth 1 (behind the hub in s's list) AND among the hub's successors.  Expanding the hub makes the frontier
+    longer than max_iter while the shallow goal still waits in it."""
+    n = draw(st.sampled_from([8, 9, 10, 7]))
+    order = list(draw(st.permutations(range(n))))
+    s = order[0]
+    k1 = draw(st.integers(2, 3))
+    level1 = order[1 : 1 + k1]
+    rest = order[1 + k1 :]
+    fan = draw(st.integers(min(4, len(rest)), len(rest)))
+    level2 = rest[:fan]
+    if draw(st.integers(0, 2)) == 0:
+        level1 = list(draw(st.permutations(level1)))
+    hub = level1[0] if draw(st.integers(0, 3)) > 0 else draw(st.sampled_from(level1))
+    pairs = [[s, v] for v in level1] + [[hub, v] for v in level2]
+    pairs += [e[:2] for e in _edge_list(draw, n, 0, 3, [1])]
+    shallow = draw(st.sampled_from([v for v in level1 if v != hub]))
+    deep = draw(st.lists(st.sampled_from(level2), min_size=1, max_size=2, unique=True))
+    kind = draw(st.sampled_from(["pred", "pred", "pred", "value", "deep-only"]))
+    if kind == "pred":
+        goal = {"as": "pred", "ts": sorted([shallow] + deep)}
+    elif kind == "value":
+        goal = {"as": "value", "ts": [shallow]}
+    else:
+        goal = {"as": "pred", "ts": sorted(deep)}
+    lo, hi = k1 + 1, max(k1 + 1, k1 + fan - 2)
+    max_iter = draw(st.one_of(st.integers(lo, hi), st.integers(lo, hi), st.integers(1, 2 * n)))
+    return {
+        "family": "bushy",
+        "n": n,
+        "scheme": draw(st.sampled_from(SCHEMES)),
+        "pairs": pairs,
+        "s": s,
+        "goal": goal,
+        "max_iter": max_iter,
+        "nb": draw(st.sampled_from(["list", "raw", "gen", "tuple"])),
+        "edges_api": False,
+        "edit": draw(st.one_of(st.none(), st.none(), _edit(n, [1]))),
+    }
+
+
+@st.composite
 def unweighted_cases(draw, tier="quick"):
     n = draw(st.sampled_from(_sizes(tier)))
-    fam = draw(st.sampled_from(["backbone", "ladder", "dense", "uniform", "backbone"]))
+    fam = draw(st.sampled_from(["backbone", "bushy", "ladder", "dense", "uniform", "backbone", "bushy"]))
+    if fam == "bushy":
+        return draw(_bushy_case(tier))
     if fam == "ladder" and n < 4:
         fam = "uniform"
     s = draw(st.integers(0, n - 1))
@@ -353,6 +401,24 @@ def signed_graph(draw, tier="quick"):
     return n, edges, fam, hint_s
 
 
+# All weights of a case are multiplied by 2**scale (exact in floats and in the Fraction oracle).  Scaling by a positive
+# power of two never changes a status or a path and scales every distance exactly, so the scaled instance is judged by
+# the same oracle; tiny magnitudes expose absolute tolerances (a negative cycle of total weight -2**-35 is a negative cycle).
+SCALES = [0, -34, 0, -40, 0, 12, -34]
+
+
+def _scaled(desc):
+    """(edges, edit, heavy) of a bellman_ford / floyd_warshall case with the scale applied."""
+    e = desc.get("scale", 0) or 0
+    edit = desc.get("edit")
+    if e == 0:
+        return [(u, v, w) for u, v, w in desc["edges"]], edit, 5
+    f = 2.0 ** e
+    if edit is not None:
+        edit = dict(edit, w=edit["w"] * f, ws=edit["ws"] * f)
+    return [(u, v, w * f) for u, v, w in desc["edges"]], edit, 5 * f
+
+
 @st.composite
 def bf_cases(draw, tier="quick"):
     n, edges, fam, hint_s = draw(signed_graph(tier))
@@ -368,6 +434,7 @@ def bf_cases(draw, tier="quick"):
         "target": draw(st.one_of(node, st.none(), node)),
         "tuples": draw(st.booleans()),
         "edit": draw(st.one_of(st.none(), _edit(n, W_POS + W_NEG))),
+        "scale": draw(st.sampled_from(SCALES)),
     }
 
 
@@ -375,7 +442,7 @@ def bf_cases(draw, tier="quick"):
 def fw_cases(draw, tier="quick"):
     n, edges, fam, _ = draw(signed_graph(tier))
     return {"family": fam, "n": n, "edges": edges, "directed": draw(st.sampled_from([True, True, False])), "tuples": draw(st.booleans()),
-            "edit": draw(st.one_of(st.none(), _edit(n, W_POS + W_NEG)))}
+            "edit": draw(st.one_of(st.none(), _edit(n, W_POS + W_NEG))), "scale": draw(st.sampled_from(SCALES))}
 
 
 HEURISTICS = ["auto", "manhattan", "octile", "euclidean", "chebyshev"]
@@ -610,7 +677,7 @@ def _goal_labels(ctx, goal, s, n):
 # wrong there too => an ordinary failure on the edited graph (plain bucket).
 # C11 does not say that arguments stay untouched, so a call that modifies the caller's list / dict / grid is only
 # labelled and counted ("arguments-mutated"), and the next call is judged against the modified content.
-def _plan_edit(edit, E, tight, s, t0, unit=False):
+def _plan_edit(edit, E, tight, s, t0, unit=False, heavy=5):
     """Generated edit -> primitive operation on the edge list E = [(u, v, w)]:
     ("append", e) | ("delete", i) | ("replace", i, e).  `tight` = indices of edges on some optimal route."""
     op, k = edit["op"], edit["k"]
@@ -620,12 +687,12 @@ def _plan_edit(edit, E, tight, s, t0, unit=False):
         return ("append", (s, t0 if t0 is not None else edit["v"], 1 if unit else edit["ws"]))
     if op in ("cut", "raise") and tight:
         i = tight[k % len(tight)]
-        return ("delete", i) if op == "cut" else ("replace", i, (E[i][0], E[i][1], 5))
+        return ("delete", i) if op == "cut" else ("replace", i, (E[i][0], E[i][1], heavy))
     if op != "add" and E:
         i = k % len(E)
         if op in ("cut", "remove"):
             return ("delete", i)
-        return ("replace", i, (E[i][0], E[i][1], edit["w"] if op == "reweight" else 5))
+        return ("replace", i, (E[i][0], E[i][1], edit["w"] if op == "reweight" else heavy))
     return ("append", (edit["u"], edit["v"], 1 if unit else edit["w"]))
 
 
@@ -784,6 +851,10 @@ def run_weighted(desc, ctx):
             d_, _ = G.sssp(n, E, s)
             want_ = _nearest(d_, goals)
             reach_ = sum(x is not None for x in d_)
+            if want_ is not None and (mc is None or want_ <= mc):
+                # nodes are settled in non-decreasing distance (astar, consistent h: non-decreasing f <= distance of the
+                # goal), so the goal is popped among the first #{dist <= distance(goal)} nodes
+                reach_ = sum(1 for x in d_ if x is not None and x <= want_) - 1
             snap = _copy_adj(adj_)
             if name == "dijkstra":
                 res = _call(ctx, dijkstra, start_, goal_, nb_, **kw)
@@ -923,7 +994,11 @@ def run_unweighted(desc, ctx):
             if explore:
                 _judge_explore_all(name, res, {L[v] for v in R_}, sorted(R_))
             elif name == "bfs":
-                escapes.append(judge_path("bfs", res, Env(n, scheme, E, s), goals, wf, max_iter=mi, reach_n=len(R_)))
+                # FIFO order: every node shallower than the nearest goal is dequeued before it and no deeper node is,
+                # so a reachable goal at depth d is dequeued among the first #{hops <= d} nodes whatever the neighbour
+                # order: MAX_ITER is legitimate only for max_iter < that number (unreachable goal: <= #reachable)
+                bound = len(R_) if w_ is None else sum(1 for v in R_ if h_[v] <= w_) - 1
+                escapes.append(judge_path("bfs", res, Env(n, scheme, E, s), goals, wf, max_iter=mi, reach_n=bound))
                 _route_labels(ctx, res)
             else:
                 escapes.append(judge_path("dfs", res, Env(n, scheme, E, s), goals, wf, optimal_status="FEASIBLE", any_path=True, max_iter=mi, reach_n=len(R_)))
@@ -1042,10 +1117,10 @@ def run_bf(desc, ctx):
     from solvor.bellman_ford import bellman_ford
 
     n, s, target = desc["n"], desc["s"], desc["target"]
-    edges = [(u, v, w) for u, v, w in desc["edges"]]
+    edges, edit, heavy = _scaled(desc)
     make = tuple if desc["tuples"] else list
     arg = [make(e) for e in edges]  # ONE list object for both calls
-    edit = desc.get("edit")
+    ctx.label(f"scale-2^{desc.get('scale', 0) or 0}")
     env = Env(n, 0, edges, s)
     dist, neg = G.sssp(n, edges, s)
     neg_any = G.neg_cycle_anywhere(n, edges)
@@ -1093,7 +1168,7 @@ def run_bf(desc, ctx):
         cur = [tuple(e) for e in arg]
         ds, ng = G.sssp(n, cur, s)
         tight = [] if ng else [i for i, (a, b, c) in enumerate(cur) if a != b and ds[a] is not None and ds[b] is not None and ds[a] + G.fr(c) == ds[b]]
-        prim = _plan_edit(edit, cur, tight, s, target)
+        prim = _plan_edit(edit, cur, tight, s, target, heavy=heavy)
         _apply_to_list(arg, prim, make)
         after = [tuple(e) for e in arg]
         d2, ng2 = G.sssp(n, after, s)
@@ -1164,10 +1239,10 @@ def run_fw(desc, ctx):
     from solvor.floyd_warshall import floyd_warshall
 
     n, directed = desc["n"], desc["directed"]
-    edges = [(u, v, w) for u, v, w in desc["edges"]]
+    edges, edit, heavy = _scaled(desc)
     make = tuple if desc["tuples"] else list
     arg = [make(e) for e in edges]  # ONE list object for both calls
-    edit = desc.get("edit")
+    ctx.label(f"scale-2^{desc.get('scale', 0) or 0}")
     D, neg = G.apsp(n, edges, directed)
     eff = edges if directed else edges + [(v, u, w) for u, v, w in edges]
 
@@ -1205,7 +1280,7 @@ def run_fw(desc, ctx):
         cur = [tuple(e) for e in arg]
         D1, ng = G.apsp(n, cur, directed)
         tight = [] if ng else [i for i, (a, b, c) in enumerate(cur) if a != b and D1[a][b] == G.fr(c)]
-        prim = _plan_edit(edit, cur, tight, edit["u"], edit["v"])
+        prim = _plan_edit(edit, cur, tight, edit["u"], edit["v"], heavy=heavy)
         _apply_to_list(arg, prim, make)
         D2, ng2 = G.apsp(n, [tuple(e) for e in arg], directed)
         ctx.label("history", f"edit-{edit['op']}", (D1, ng) != (D2, ng2) and "edit-changes-answer", ng != ng2 and "edit-flips-negative-cycle")
@@ -1381,9 +1456,9 @@ def run_grid(desc, ctx):
 
 
 SUBS = [
-    Sub("dijkstra_astar", run_weighted, strategy=lambda tier: weighted_cases(tier), quick=1600, thorough=1500, workers_quick=6, case_timeout=20.0, wall_thorough=300.0),
+    Sub("dijkstra_astar", run_weighted, strategy=lambda tier: weighted_cases(tier), quick=1000, thorough=1500, workers_quick=8, case_timeout=20.0, wall_thorough=300.0),
     Sub("bfs_dfs", run_unweighted, strategy=lambda tier: unweighted_cases(tier), quick=1000, thorough=1000, workers_quick=6, case_timeout=20.0, wall_thorough=300.0),
     Sub("bellman_ford", run_bf, strategy=lambda tier: bf_cases(tier), quick=1200, thorough=1200, workers_quick=6, case_timeout=20.0, wall_thorough=300.0),
     Sub("floyd_warshall", run_fw, strategy=lambda tier: fw_cases(tier), quick=900, thorough=900, workers_quick=6, case_timeout=20.0, wall_thorough=300.0),
-    Sub("astar_grid", run_grid, strategy=lambda tier: grid_cases(tier), quick=1200, thorough=1500, workers_quick=8, case_timeout=20.0, wall_thorough=300.0),
+    Sub("astar_grid", run_grid, strategy=lambda tier: grid_cases(tier), quick=1000, thorough=1500, workers_quick=8, case_timeout=20.0, wall_thorough=300.0),
 ]
